@@ -506,6 +506,22 @@ def check_C09(ctx):
     ctx.assumptions += _BUILDER_ASSUME + ["Blake2b is uninterpreted in TLA+; the digest of each spec-assembled preimage is evaluated by hashlib (HASHCHK records)",
                                           "cost models are 6-parameter vectors fixed by a rule shared with the spec; V1/V2/V3 by script id"]
     builder_family(ctx, n_random=4000 if ctx.thorough else 500, mc_sample=0, n_plutus=8000 if ctx.thorough else 900, corrupt=_corrupt_sdh)
+    if ctx.replay or ctx.selftest:
+        return
+    # the stand-alone helpers: lattice of redeemers x datums x cost models from MC_Hashes (whose invariants check the language-view encoding itself),
+    # plus auxiliary data / datum instances of the schema generator
+    r = ctx.mc("MC_Hashes", cfg="MC_Hashes.cfg", workers=4, timeout=900)
+    scn = r.by("SCN")
+    for s in ctx.mc("MC_Codec", cfg="MC_Codec_hashes.cfg", workers=4, timeout=900).by("SCN"):
+        if s.get("type") == "auxiliary_data":
+            scn.append({"kind": "aux", "aux": s["bytes"]})
+        elif s.get("type") == "plutus_data":
+            scn.append({"kind": "pd", "pd": s["bytes"]})
+    p = ctx.write_scn(scn, name="scn_hashes.ndjson")
+    run = ctx.drive("hashes", scn=p, n=0)
+    em = ctx.validate("Trace_Hashes", run, shards=8)
+    if em is not None:
+        ctx.extra["helper_digest_checks"] = _take_hashchk(ctx, em)
 
 
 @prop("C10", "as C09; each script use carries a redeemer whose datum is a unique integer; TLC locates every redeemer in the emitted "
@@ -659,6 +675,15 @@ def check_C04(ctx):
     if ctx.replay:
         run = ctx.run_replay()
         return
+    # L1: the cache / collection state machine of the byte-preserving witness set satisfies L0 on the model (spec/sys/FixedTx.tla);
+    # under --selftest the seeded variants of the model must each violate an invariant (the invariants are not vacuous)
+    ctx.mc("MC_FixedTxL1", cfg="MC_FixedTxL1_thorough.cfg" if ctx.thorough else "MC_FixedTxL1.cfg", workers=8, timeout=1500)
+    if ctx.selftest:
+        for v in ("invalidate-other-cache", "length-from-collections", "no-dedup"):
+            r = vlib.tlc("MC_FixedTxL1", cfg="MC_FixedTxL1_%s.cfg" % v, workdir=os.path.join(ctx.work, "mc_L1_" + v), workers=4, timeout=900)
+            log("[C04] selftest model variant %s: invariant violated = %s" % (v, r.invariant_violated))
+            if not r.invariant_violated:
+                ctx.selftest_ok = False
     cfg = "MC_FixedTx_thorough.cfg" if ctx.thorough else "MC_FixedTx.cfg"
     r = ctx.mc("MC_FixedTx", cfg=cfg, workers=8)
     p = ctx.write_scn(r.by("SCN"))
@@ -710,8 +735,8 @@ def _drive_parse(ctx, scn_path, n_text, short):
         if p.returncode in (-6, 134, -9, 137, -11, 139) and os.path.exists(pending):
             pend = json.load(open(pending))
             aborts += 1
-            if aborts > 400:
-                raise ToolError("parse driver: more than 400 process deaths")
+            if aborts > 5000:
+                raise ToolError("parse driver: more than 5000 process deaths")
             with open(trace, "a") as f:
                 for r in recs:
                     if r.get("ev") != "ParseBatch":
